@@ -170,13 +170,14 @@ theorem remove_count (c : WTinyLfu κ ν) (k : κ) (o : Obj κ ν) :
     rw [hx] at c2
     simp only [heldAll, List.count_append] at *; omega
 
-theorem purge_count (c : WTinyLfu κ ν) (o : Obj κ ν) :
-    ∃ c' d, c.purge = .ok (c', d) ∧ c'.heldAll = [] ∧ c.heldAll.count o = d.count o := by
-  obtain ⟨w', e1, h1, hw0, hc1⟩ := RawLru.purge_count c.window o
-  obtain ⟨m', d2, h2, hm0, hc2⟩ := Slru.purge_count c.main o
-  refine ⟨{ est := c.est.clear, window := w', main := m' }, e1.drops ++ d2, by simp only [WTinyLfu.purge, h1, h2], ?_, ?_⟩
+theorem purge_count (c : WTinyLfu κ ν) :
+    ∃ c' d, c.purge = .ok (c', d) ∧ c'.heldAll = [] ∧ ∀ o : Obj κ ν, c.heldAll.count o = d.count o := by
+  obtain ⟨w', e1, h1, hw0, hc1⟩ := RawLru.purge_count c.window
+  obtain ⟨m', d2, h2, hm0, hc2⟩ := Slru.purge_count c.main
+  refine ⟨{ est := c.est.clear, window := w', main := m' }, e1.drops ++ d2, by simp only [WTinyLfu.purge, h1, h2], ?_, fun o => ?_⟩
   · simp only [heldAll, hw0, hm0, held_nil, List.append_nil]
-  · simp only [heldAll, List.count_append]; omega
+  · have := hc1 o; have := hc2 o
+    simp only [heldAll, List.count_append]; omega
 
 theorem drop_count (c : WTinyLfu κ ν) : c.dropCache = c.heldAll := rfl
 end WTinyLfu
